@@ -24,6 +24,11 @@ CLAIMED = {
    note="Trusted: TLC, Cidr.tla (interval arithmetic, RFC 5952 canonical form). IPv6 coverage is decided on <=36 corner addresses per network, not on all addresses. One recorded deviation (IPv6 text prefix).",
    technique="TLA+ CIDR model checked with TLC; TLC-generated networks replayed into the code; TLC decides exact cover by interval arithmetic",
    ref="6/C18"),
+ "C03": dict(level=MC,
+   text="TLC model-checks the modifier chain machine of spec/Modifiers.tla (one transition per modifier, all chains <=2/3 over the 33-entry table from 39 seed values: list modifiers monotone and separate from value modifiers, wildcard modifiers idempotent and only adding end wildcards, cased keeps content, windash yields exactly 5^k distinct variants differing only at parameter dashes, expand conserves characters). TLC-generated (value, chain) cases are replayed into SigmaDetectionItem.from_mapping and TLC compares the recorded values/linking/negation with the machine's result (expansions as bags), a required rejection with any Sigma error.",
+   note="Trusted: TLC, Modifiers.tla as rendering of the Sigma specification + pySigma documentation; outcomes the documents leave open are Unspecified (possibly invalid regex text, wide/utf16 (C04), numeric modifier after a timestamp part, fieldref of escaped characters, CIDR texts outside the seed table).",
+   technique="TLA+ modifier chain state machine model-checked with TLC; TLC-generated chains replayed into the code; TLC judges recorded item state",
+   ref="6/C03"),
 }
 REASON_NOT_BUILT = "check not built yet in this round (see DESIGN.md section 6 for the planned TLA+ model); not claimed until its judge is sound"
 ALL = [f"C{i:02d}" for i in range(1, 21)]
